@@ -543,7 +543,10 @@ void meaning_case(const std::vector<int>& seq, bool through_runner) {
     vf::count("ops");
     bool listing = ref.flag[F_LG] || ref.flag[F_LN] || ref.flag[F_LL];
     const int xout = *ref.outs.begin(); const std::string xpkg = *ref.pkgs.begin();     // documented, not observed
-    bool console_out = xout == OUT_ECLIPSE;
+    // documented output level from ALL verbosity options of the vector: very verbose if any -vv, else verbose if any -v, else quiet
+    // (there is no -q option). A console exists for eclipse/normal and teamcity, and for junit as soon as -v or -vv is given.
+    const bool vv = ref.flag[F_VV], vb = ref.flag[F_V] || ref.flag[F_VV];
+    const bool console_out = xout == OUT_ECLIPSE || xout == OUT_TEAMCITY || (xout == OUT_JUNIT && vb);
     if (listing) {
         if (!r.runlog.empty()) vf::fail("runner/list-mode-ran-tests", A + vf::fmt(": %zu test executions in a list mode", r.runlog.size()));
         if (console_out) {
@@ -592,12 +595,24 @@ void meaning_case(const std::vector<int>& seq, bool through_runner) {
     } else if (!r.files.empty()) vf::fail("runner/file-output-without-junit", A + ": file " + r.files[0] + " written");
     if ((xout == OUT_TEAMCITY) != contains(r.console, "##teamcity[")) vf::fail("runner/teamcity-output", A + ": teamcity service messages present/absent against -oteamcity");
     if (console_out) {
-        bool any_verbose = ref.flag[F_V] || ref.flag[F_VV];
-        if (any_verbose) { for (int id : per_rep) { std::string nm = std::string("TEST(") + GROUPS[probe_gi(id)] + ", " + NAMES[probe_ni(id)] + ")"; if (!contains(r.console, nm)) { vf::fail("runner/verbose-output", A + ": -v but " + nm + " not printed"); break; } } }
-        else if (contains(r.console, "TEST(")) vf::fail("runner/verbose-output", A + ": test names printed without -v");
+        if (xout != OUT_TEAMCITY) {          // teamcity announces tests by service messages, not by TEST(g, n) lines
+            if (vb) { for (int id : per_rep) { std::string nm = std::string("TEST(") + GROUPS[probe_gi(id)] + ", " + NAMES[probe_ni(id)] + ")"; if (rep > 0 && !contains(r.console, nm)) { vf::fail("runner/verbose-output", A + ": -v/-vv but " + nm + " not printed"); break; } } }
+            else if (contains(r.console, "TEST(")) vf::fail("runner/verbose-output", A + ": test names printed without -v/-vv");
+        }
         if (ref.flag[F_C] != contains(r.console, "\033[")) vf::fail("runner/color-output", A + ": colour escapes present/absent against -c");
         if (ref.shuffle && !contains(r.console, "seed: " + std::to_string(c.seed) + "\n")) vf::fail("runner/shuffle-seed-announced", A + ": the seed in use is not printed");
     }
+    // very verbose ("print internal information during test run"): the same vector with every -vv replaced by -v must print
+    // strictly less, by at least one line per executed test; and without any -vv no internal information may appear
+    if (vv && !want.empty()) {
+        Args a2;
+        for (int ix : seq) { const Inst& i = INST[(size_t)ix]; if (i.kind == K_FLAG && i.flag == F_VV) a2.push_back("-v"); else for (auto& x : i.argv) a2.push_back(x); }
+        RunObs r2 = runner_run(a2);
+        vf::count("ops");
+        if (r.console.size() < r2.console.size() + want.size())
+            vf::fail("runner/very-verbose-output", A + vf::fmt(": -vv given, but the run prints %zu bytes where the same vector with -v instead of -vv prints %zu: no internal information for %zu executed tests", r.console.size(), r2.console.size(), want.size()));
+    }
+    if (!vv && contains(r.console, "runAllPreTestAction")) vf::fail("runner/very-verbose-output", A + ": internal information printed without -vv");
 }
 
 } // namespace
